@@ -5,7 +5,7 @@ from vv import sched, kit
 from vv.core import Result
 
 ID = 'C02'
-CASES = {'quick': 250, 'thorough': 4000}
+CASES = {'quick': 600, 'thorough': 40000}
 HANG_IS_VIOLATION = True
 RULE = ('Hypothesis draws 1..4 scripted recording processes (constant or '
         'invocation-indexed timesteps on a k/4 grid, or on the 10^-p grid with '
